@@ -33,6 +33,11 @@ pub enum SOp {
     NotifyAll,
     ALoad(u8),
     AStore(u8, u8),
+    /// Relaxed load / store of atomic x: values only, no happens-before
+    RLoad(u8),
+    RStore(u8, u8),
+    /// skip the next n operations unless the last recorded result of this thread equals v
+    SkipUnlessLast(i64, u8),
     NWait,
     NNotify,
     CellW(u8),
@@ -74,7 +79,7 @@ impl SProg {
         self.ops().any(|o| f(o))
     }
     pub fn has_atomics(&self) -> bool {
-        self.has(|o| matches!(o, SOp::ALoad(_) | SOp::AStore(..)))
+        self.has(|o| matches!(o, SOp::ALoad(_) | SOp::AStore(..) | SOp::RLoad(_) | SOp::RStore(..)))
     }
     pub fn has_cells(&self) -> bool {
         self.has(|o| matches!(o, SOp::CellW(_) | SOp::CellR(_)))
@@ -117,6 +122,8 @@ pub struct St {
     chan: Vec<(u8, VC)>,
     cvq: Vec<u8>,
     atom: [u8; 2],
+    /// every value ever stored with RStore (a relaxed load may legally return an older one)
+    hist: [Vec<u8>; 2],
     nflag: bool,
     nspur: bool,
     res: Vec<Vec<i64>>,
@@ -176,6 +183,7 @@ impl<'a> Machine<'a> {
             chan: vec![],
             cvq: vec![],
             atom: [0; 2],
+            hist: [vec![0], vec![0]],
             nflag: false,
             nspur: false,
             res: vec![Vec::new(); n],
@@ -500,6 +508,35 @@ impl<'a> Machine<'a> {
                 adv(&mut ns);
                 v.push((ns, true, None));
             }
+            SOp::RLoad(x) => {
+                let x = x as usize;
+                // soundness form: any value stored so far (stale relaxed reads are legal); completeness form: the latest
+                let vals: Vec<u8> = if self.spurious { s.hist[x].clone() } else { vec![s.atom[x]] };
+                for val in vals {
+                    let mut n2 = s.clone();
+                    n2.res[t].push(val as i64);
+                    n2.pc[t] += 1;
+                    n2.sub[t] = 0;
+                    v.push((n2, true, Some(val as i64)));
+                }
+            }
+            SOp::RStore(x, val) => {
+                ns.atom[x as usize] = val;
+                if !ns.hist[x as usize].contains(&val) {
+                    ns.hist[x as usize].push(val);
+                }
+                adv(&mut ns);
+                v.push((ns, true, None));
+            }
+            SOp::SkipUnlessLast(val, n) => {
+                if s.res[t].last() == Some(&val) {
+                    ns.pc[t] += 1;
+                } else {
+                    ns.pc[t] = (s.pc[t] + 1 + n).min(self.p.threads[t].len() as u8);
+                }
+                ns.sub[t] = 0;
+                v.push((ns, true, None));
+            }
             SOp::NWait => {
                 if s.sub[t] == 0 {
                     // the single spurious return of the Notify object is a choice made at wait entry
@@ -676,7 +713,7 @@ pub fn replay(p: &SProg, log: &[(u8, u8, i64)], completed: bool) -> Result<(), S
                     continue;
                 }
                 // SeqCst loads may legitimately return stale values (loom treats them as Acquire): not checked here
-                let is_aload = matches!(p.threads[t as usize][pc as usize], SOp::ALoad(_) | SOp::Unpark(_));
+                let is_aload = matches!(p.threads[t as usize][pc as usize], SOp::ALoad(_) | SOp::RLoad(_) | SOp::Unpark(_));
                 let value_ok = match r {
                     Some(x) => is_aload || x == res,
                     None => true,
@@ -859,6 +896,27 @@ pub fn gen_sync(rng: &mut Rng, t: usize, k: usize, kinds: &str, o: GenOpts) -> S
                             Some(TryLock(_)) | Some(TryRead) | Some(TryWrite) if rng.chance(1, 2) => FailIfLast(th as u8, rng.below(2) as i64),
                             Some(TryRecv) if rng.chance(1, 2) => FailIfLast(th as u8, -1),
                             _ => Fail(th as u8),
+                        }
+                    }
+                    'g' => {
+                        // relaxed flag protocol: either publish the flag, or look at it and do the next 1-2 operations only if it was seen
+                        if rng.chance(1, 2) {
+                            RStore(0, 1)
+                        } else {
+                            ops.push(RLoad(0));
+                            let body: Vec<SOp> = (0..1 + rng.below(2))
+                                .map(|_| match rng.below(3) {
+                                    0 => Park,
+                                    1 if o.cells => CellR(rng.below(2) as u8),
+                                    2 if o.cells => CellW(rng.below(2) as u8),
+                                    _ => Park,
+                                })
+                                .collect();
+                            ops.push(SkipUnlessLast(1, body.len() as u8));
+                            ops.extend(body);
+                            n += 2;
+                            pushed = true;
+                            break;
                         }
                     }
                     'y' => Yield,
@@ -1062,8 +1120,11 @@ fn exec(p: &SProg, t: usize, o: &Objs, rx: Option<&loom::sync::mpsc::Receiver<u8
     let mut guards: [Option<loom::sync::MutexGuard<'static, i64>>; 2] = [None, None];
     let mut rwg: Option<RwGuard> = None;
     let mut last: Option<i64> = None;
-    for (pc, op) in p.threads[t].iter().enumerate() {
+    let mut pc = 0usize;
+    while pc < p.threads[t].len() {
+        let op = &p.threads[t][pc];
         let mut res: i64 = i64::MIN;
+        let mut skip = 0usize;
         match *op {
             SOp::Lock(m) => {
                 let g = o.mutex[m as usize].lock().unwrap();
@@ -1139,6 +1200,13 @@ fn exec(p: &SProg, t: usize, o: &Objs, rx: Option<&loom::sync::mpsc::Receiver<u8
             SOp::NotifyAll => o.cv.notify_all(),
             SOp::ALoad(x) => res = o.atoms[x as usize].load(SeqCst) as i64,
             SOp::AStore(x, v) => o.atoms[x as usize].store(v as usize, SeqCst),
+            SOp::RLoad(x) => res = o.atoms[x as usize].load(std::sync::atomic::Ordering::Relaxed) as i64,
+            SOp::RStore(x, v) => o.atoms[x as usize].store(v as usize, std::sync::atomic::Ordering::Relaxed),
+            SOp::SkipUnlessLast(v, n) => {
+                if last != Some(v) {
+                    skip = n as usize;
+                }
+            }
             SOp::NWait => o.notify.wait(),
             SOp::NNotify => o.notify.notify(),
             SOp::CellW(c) => o.cells.0[c as usize].with_mut(|p| unsafe { std::ptr::write_volatile(p, 1) }),
@@ -1168,6 +1236,8 @@ fn exec(p: &SProg, t: usize, o: &Objs, rx: Option<&loom::sync::mpsc::Receiver<u8
             last = Some(res);
         }
         s.log.push((t as u8, pc as u8, if res == i64::MIN { 0 } else { res }));
+        drop(s);
+        pc += 1 + skip;
     }
     drop(rwg);
     drop(guards);
